@@ -35,6 +35,11 @@ CHECKS = {
   text="All expressions of the allocating slice (array/map literals with non-constant elements, run-time ranges ascending/equal/descending, map/filter results, nestings, intermediate collections) up to a node budget, for every value of the bounds and every budget 1..12 (barrier between budgets since vm.MemoryBudget is global), optimized/unoptimized/no-env: the run must succeed exactly when the reference evaluator's allocation count is below the budget. The existing test has one expression and one budget.",
   note="Trusted: reference allocation count (sum of lengths of created collections); budgets 1..12 and the default.",
   ref="DESIGN.md section 4 C06"),
+ "C08": dict(
+  technique="stateless preemption-bounded exploration (iterative context bounding, replayed prefixes) of all interleavings of 2-3 VM threads at instruction granularity through the vm.Debug() seam, with deep snapshots of the shared state; plus a declared auxiliary free-running pass under the race detector",
+  text="The explorer is the only thing that lets a VM advance: every schedule with at most 2 preemptions (2 threads) / 1 preemption (3 threads; +1 in the thorough tier) of threads running FRESH shared program instances (compiled regexp, lookup map, folded slice, call descriptors, nested scopes, ranges, dynamic patterns, a failing run on a multi-line source) on two shared read-only environments is executed; every run must return its solo result and the canonical deep snapshot of the shared programs and environments must be unchanged after every schedule. Replay determinism is checked first; a divergence while replaying a prefix is a hard error. Accesses between two scheduling points and concurrent Compile calls are covered by the same bodies run free under -race (auxiliary, not model checking).",
+  note="Trusted: instruction boundaries as scheduling points; the race detector for the auxiliary pass; if the library starts importing package sync, snapshot changes are reported only together with a race report.",
+  ref="DESIGN.md section 4 C08"),
  "C10": dict(
   technique="exhaustive enumeration of syntax trees built from the ast types (every node kind in every child slot of every node kind, to a depth bound) with a reflection-derived reference traversal, every position replaced by a visitor, plus end-to-end one-hole contexts compiled with a Patch visitor",
   text="For every tree: ast.Walk must produce exactly the Enter/Exit sequence computed by reflection over the ast.Node and []ast.Node fields in declaration order (each node once, parents around children, children in source order); for every position, a visitor replacing that node on Exit and on Enter must leave the replacement in that slot and (on Enter) have its children walked. End to end, every one-hole context C[41] of a hole grammar (under slices, indexes, closures, arguments, map keys/values, branches, ranges) compiled with a Patch visitor rewriting 41 to 42 must evaluate like C[42] in three modes.",
